@@ -53,7 +53,11 @@ DistinctKeys(d) == \A i, j \in DOMAIN d : d[i][1] = d[j][1] => i = j
 (* This mirrors conf.util.extrapolate_templates step by step, except that  *)
 (* generated names are STRUCTURED (basetype + Sep + key) as the property   *)
 (* states, not produced by str.replace.                                    *)
-PhKey(ph) == Raw.phkey[ph]
+\* "{type:a}" -> "type": looked up in the extracted table, computed for placeholders outside it
+KeyOfPh(ph) == LET body == SubSeq(ph, 2, Len(ph) - 1)
+                   c == {i \in 1..Len(body) : SubSeq(body, i, i) = ":"}
+               IN IF c = {} THEN body ELSE SubSeq(body, 1, MinOf(c) - 1)
+PhKey(ph) == IF ph \in DOMAIN Raw.phkey THEN Raw.phkey[ph] ELSE KeyOfPh(ph)
 Names(seq) == {seq[i].name : i \in DOMAIN seq}
 Tpls(seq)  == {seq[i].ph : i \in DOMAIN seq}
 
